@@ -6,6 +6,8 @@ Line-protocol driver of the C08 model (header `spacebounds …`; the header's `s
 
   enf <space> <state>
       -> `sat=<b> sat2=<b> | <enforced state> | <twice enforced state>`
+  psamp <space> <projection result>
+      -> `sat=<b> | <returned state>`   (ProjectedStateSampler: the recorded projection result, then enforceBounds)
   msamp <u|n|g> <dist> <nu> <u>*nu <ng> <g>*ng <space> <centre>          (model only: raw draws are inputs)
       -> `sat=<b> ui=<n> gi=<n> | <sampled state>`
   subs <u|n|g> <plen> <k>*plen <dist> <space> <state> <near> <scripted substate>
@@ -188,6 +190,17 @@ def step (st : St) (ts : List String) : St × String :=
         let e1 := enforceBounds sp s
         let e2 := enforceBounds sp e1
         (st, s!"sat={b01 (satisfiesBounds sp s)} sat2={b01 (satisfiesBounds sp e1)} | {showSt e1} | {showSt e2}")
+      | _ => (st, "bad-op")
+    | none => (st, "bad-op")
+  | "psamp" :: r =>
+    -- ProjectedStateSampler / AtlasStateSampler: the recorded projection result, then the clamp (`projectedSample`)
+    match pSpace r with
+    | some (sp, r) =>
+      match pState sp r with
+      | some (proj, []) =>
+        if !sp.wellTyped proj then (st, "bad-op") else
+        let out := projectedSample sp (fun _ => proj) proj
+        (st, s!"sat={b01 (satisfiesBounds sp out)} | {showSt out}")
       | _ => (st, "bad-op")
     | none => (st, "bad-op")
   | "msamp" :: kind :: r =>
